@@ -116,7 +116,8 @@ func (n *CocagoParser) Visitor(f *ast.File, fset *token.FileSet, fileName string
 			currentStruct.NodeName = x.Name.Name
 			currentStruct.Package = currentFile.PackageName
 			//currentStruct.FilePath = BuildImportName(fileName)
-			dsMap[currentStruct.NodeName] = &currentStruct
+			newStruct := currentStruct
+			dsMap[currentStruct.NodeName] = &newStruct
 		case *ast.StructType:
 			AddStructType(currentStruct.NodeName, x, &currentFile, dsMap)
 		case *ast.FuncDecl:
